@@ -151,6 +151,7 @@ def spec : List (String × String × String) := [
   ("wfx", "energy", "au"),
   ("wfx", "atgradient", "au"),
   ("gaussianinput", "atcoords", "angstrom"),  -- Gaussian input: Cartesian coordinates in Å (default Units)
+  ("gaussianinput-units-ang", "atcoords", "angstrom"),  -- route with `Units=(Ang,Deg)` and an aug-cc basis: still Å
   ("gaussian-input-writer", "atcoords", "angstrom"),
   ("orca-input-writer", "atcoords", "angstrom"),   -- ORCA "* xyz": Å
   ("json", "atcoords", "au"),                 -- QCSchema molecule.geometry: bohr
